@@ -1111,6 +1111,7 @@ func (e *Enc) phiVal(fr *Frame, b *ssa.BasicBlock, phi *ssa.Phi) Val {
 
 // loopWrites statically collects what a loop body may write.
 type writeSet struct {
+	scope *ssa.Function // if set: stores into stack variables of other functions are ignored
 	all   bool
 	regs  map[string]bool
 	elems bool
@@ -1138,7 +1139,9 @@ func (e *Enc) cutLoop(fr *Frame, head *ssa.BasicBlock, st *State) {
 			e.contractError(fr, fmt.Sprintf("loop%d.inv%d", ord, k+1), err)
 			continue
 		}
-		e.oblige("loop-entry", fmt.Sprintf("loop%d.inv%d", ord, k+1), st, t, token.NoPos).Text = inv.text
+		q := e.oblige("loop-entry", fmt.Sprintf("loop%d.inv%d", ord, k+1), st, t, token.NoPos)
+		q.Text = inv.text
+		e.addProps(q, fr.con, inv.props)
 	}
 	ws0 := e.loopWrites(fr, head)
 	frameRegs := e.loopFrameRegs(fr, ws0)
@@ -1315,6 +1318,11 @@ func (e *Enc) backEdgeCheck(fr *Frame, p, head *ssa.BasicBlock, st State) {
 		for _, label := range pend.order {
 			q := e.oblige("loop-preserved", label, &all, tb.And(pend.conj[label]...), token.NoPos, e.inputVals()...)
 			q.Text = pend.text[label]
+			for k, inv := range invs {
+				if label == fmt.Sprintf("loop%d.inv%d", ord, k+1) {
+					e.addProps(q, fr.con, inv.props)
+				}
+			}
 		}
 	}
 }
@@ -1346,6 +1354,13 @@ func (e *Enc) loopWrites(fr *Frame, head *ssa.BasicBlock) *writeSet {
 func (e *Enc) instrWrites(in ssa.Instruction, ws *writeSet, depth int) {
 	switch x := in.(type) {
 	case *ssa.Store:
+		if ws.scope != nil {
+			// a store into a variable of another function's activation (a callee inlined for the write analysis, the
+			// body of a callback literal): that variable is created per call and cannot be observed by the unit
+			if al := rootAlloc(x.Addr); al != nil && al.Parent() != ws.scope && !al.Heap {
+				return
+			}
+		}
 		e.addrWrites(x.Addr, x.Val.Type(), ws)
 	case *ssa.MapUpdate:
 		ws.regs["MAPS"] = true
@@ -1885,4 +1900,46 @@ func (e *Enc) immutableReg(name string) bool {
 		}
 	}
 	return e.immRegs[name]
+}
+
+// rootAlloc: the allocation an address expression is rooted in (through field and index steps), or nil.
+func rootAlloc(a ssa.Value) *ssa.Alloc {
+	for i := 0; i < 8; i++ {
+		switch x := a.(type) {
+		case *ssa.Alloc:
+			return x
+		case *ssa.FieldAddr:
+			a = x.X
+		case *ssa.IndexAddr:
+			a = x.X
+		default:
+			return nil
+		}
+	}
+	return nil
+}
+
+// addProps: an obligation generated from a clause that names its own property ids counts for them in addition to the
+// properties of its block.
+func (e *Enc) addProps(q *Query, con *FuncContract, extra []string) {
+	if len(extra) == 0 || q == nil {
+		return
+	}
+	if e.qProps == nil {
+		e.qProps = map[string][]string{}
+	}
+	ps := append([]string{}, e.qProps[q.Name]...)
+	if con != nil {
+		for _, p := range con.props {
+			if !hasProp(ps, p) {
+				ps = append(ps, p)
+			}
+		}
+	}
+	for _, p := range extra {
+		if !hasProp(ps, p) {
+			ps = append(ps, p)
+		}
+	}
+	e.qProps[q.Name] = ps
 }
